@@ -293,4 +293,32 @@ def run(ctx):
                "relation that holds when the error is built: %s (END = frame offset + data length, LIMIT = Recv.max_stream_data); "
                "`>=` would refuse data that exactly fills the advertised window, a comparison of the offset alone admits a frame "
                "that straddles the limit" % got)
+    # ---------------------------------------------------------------- R6: what a RESET_STREAM charges
+    ctx.rule("R6", "a reset charges what was never received: Recv::recv_reset returns final_size minus the largest offset received "
+                   "*before* this frame (no write of Recv.largest precedes the subtraction), and that amount reaches the connection "
+                   "controller")
+    rr = ctx.anchor("R6", "qrecovery::recv::recver::Recv::recv_reset")
+    if rr:
+        subs = []
+        for (i, j, p, rv, line) in rr.assigns():
+            if rv[0] == "bin" and rv[1] in ("SubWithOverflow", "Sub", "SubUnchecked"):
+                ra, rb = value_roles(rr, rv[2]), value_roles(rr, rv[3])
+                if any("final_size" in r for r in ra) and "field:Recv.largest" in rb:
+                    subs.append((i, line))
+        ws = [i for (b, i, j, p, rv, line) in field_writes(prog, "recver::Recv", "largest", [rr])]
+        ctx.floor("R6", "`final_size - largest` in Recv::recv_reset", len(subs), 1)
+        early = [(w, s_) for w in ws for (s_, _) in subs if s_ in rr.reachable_from(w) or s_ == w]
+        oks = ok_return_sites(rr)
+        ret_from_sub = False
+        for o_ in oks:
+            for (i, j, p, rv, line) in rr.assigns():
+                if i == o_ and rv[0] == "agg" and rv[1].get("variant") == "Ok":
+                    for a in rv[2]:
+                        if any(r.startswith("diff(") and "final_size" in r and "Recv.largest" in r for r in value_roles(rr, a)) or \
+                                any(og[0] == "rv" for og in local_origins(rr, a)):
+                            ret_from_sub = True
+        ctx.ob("R6", "%s|returns final_size - largest as it was on entry" % rr.short, bool(subs) and not early and ret_from_sub, rr.where(),
+               "subtractions %s; writes of Recv.largest that can precede one: %s; Ok(..) carries the difference: %s — if `largest` is "
+               "overwritten first the difference is always 0: bytes a peer claims through RESET_STREAM final sizes are never charged to "
+               "the connection window, so it can exceed MAX_DATA without a FLOW_CONTROL_ERROR" % (subs, early or "none", ret_from_sub))
     ctx.assume("SendBuf::pick charges flow_limit only for Pending-coloured picks and reports is_fresh for them (value-level, C09)")
